@@ -65,8 +65,21 @@ func (r *Runner) fillExpandConfig(ctx context.Context) {
 				return err
 			}
 			r2 := r.subshell(false)
-			r2.stdout = w
+			// Background jobs started by the command substitution inherit
+			// its stdout and may write to it at any time, while w is a
+			// plain buffer owned by the caller; see [cmdSubstWriter].
+			cw := &cmdSubstWriter{w: w}
+			r2.stdout = cw
 			r2.stmts(ctx, cs.Stmts)
+			// Like other shells, wait for the jobs which may still write
+			// to the output, unless we were told to stop.
+			for _, bg := range r2.bgProcs {
+				select {
+				case <-bg.done:
+				case <-ctx.Done():
+				}
+			}
+			cw.close()
 			r2.exit.exiting = false // subshells don't exit the parent shell
 			r.lastExpandExit = r2.exit
 			if r2.exit.fatalExit {
@@ -160,6 +173,30 @@ func (r *Runner) fillExpandConfig(ctx context.Context) {
 		},
 	}
 	r.updateExpandOpts()
+}
+
+// cmdSubstWriter serializes writes to the output of a command substitution,
+// and drops any which arrive once the substitution is done,
+// such as those from a background job which was not waited for.
+type cmdSubstWriter struct {
+	mu     sync.Mutex
+	w      io.Writer
+	closed bool
+}
+
+func (c *cmdSubstWriter) Write(p []byte) (int, error) {
+	c.mu.Lock()
+	defer c.mu.Unlock()
+	if c.closed {
+		return 0, io.ErrClosedPipe
+	}
+	return c.w.Write(p)
+}
+
+func (c *cmdSubstWriter) close() {
+	c.mu.Lock()
+	c.closed = true
+	c.mu.Unlock()
 }
 
 // catShortcutArg checks if a statement is of the form "$(<file)". The redirect
